@@ -90,6 +90,9 @@ func RunSelftest(args []string) int {
 					return true, strings.TrimSpace(trunc(line, 160))
 				}
 			}
+			if strings.Contains(string(out), "load error") {
+				return false, "INVALID MUTANT (does not build): " + trunc(string(out), 300)
+			}
 			tail := string(out)
 			if len(tail) > 600 {
 				tail = tail[len(tail)-600:]
